@@ -51,6 +51,9 @@ def main():
         for name, prop, kind, info in ex.map(one, seeds):
             print(f"{name:10s} {prop} {kind:24s} {info}", flush=True)
             bad += kind != "caught"
+    # lean/NrfGen is regenerated from $VERIF_REPO by every C04/C15/C18 check: bring it back to /repo's text
+    subprocess.run([sys.executable, str(VERIF / "tools" / "py2lean.py")], capture_output=True,
+                   env={**os.environ, "VERIF_REPO": "/repo"})
     print(f"{len(seeds) - bad}/{len(seeds)} seeded changes reported with a concrete failing input")
     return 0 if bad == 0 else 1
 
